@@ -199,7 +199,7 @@ def check_search(c2, c3, repo, ctor, f, kind):
     loops = [n for n in iter_nodes(f.node) if isinstance(n, ast.For)]
     c2.need(len(loops) == 1, '%s: expected one loop' % f.qual)
     loop = loops[0]
-    c2.check(is_self_attr(loop.iter, listattr), f, loop,
+    c2.check(is_self_attr(loop.iter, listattr) or ctext(loop.iter, f) == 'self.' + listattr, f, loop,
              'iterates self.%s directly, in stored (= list) order' % listattr, witness=norm(loop.iter), kind='ast', tag='list-order')
     c2.need(isinstance(loop.target, ast.Tuple) and len(loop.target.elts) == 2 and
             all(isinstance(e, ast.Name) for e in loop.target.elts), 'loop target is not (index, pattern)')
@@ -379,7 +379,7 @@ def check_search(c2, c3, repo, ctor, f, kind):
              witness=norm(asg['match'][0].ast), kind='ast', tag='match')
     ev = asg['end'][0].ast.value
     if kind == 'string':
-        got = lin(ev, f)
+        got = lin(ev, f, keep=tuple(matchvars) + (best,))
         # accept self.start + len(self.match) / best + len(best_match)
         def canon_terms(L):
             t = {}
